@@ -108,6 +108,10 @@ def compile_db(root):
             flags.append(a)
         if not any(f.startswith("-std=") for f in flags):
             flags.append("-std=c++17")
+        # assert() is analysed as in a release build (a no-op): a condition that is only asserted guards nothing, and adding
+        # asserts to the code changes nothing the rules see
+        if "-DNDEBUG" not in flags:
+            flags = [f for f in flags if f != "-UNDEBUG"] + ["-DNDEBUG"]
         units[os.path.realpath(e["file"])] = flags
     if not units:
         raise Broken("empty compile database")
